@@ -787,7 +787,7 @@ pub fn gen_wrep(rng: &mut Rng) -> RawCase {
         ));
         l.push(format!("WHILE {}\nInWhile0:\nPRINT \"w\";\nK4% = K4% + 1\nIF K4% > 3 THEN END\nWEND", rng.pick(&["0", "DBG"])));
     }
-    l.push("END".into());
+    l.push("Rl9:\nPRINT \"end\"\nEND".into());
     l.push("Gs1:\nI% = I% + 1\nRETURN".into());
     if handler {
         l.push(format!(
@@ -797,6 +797,8 @@ pub fn gen_wrep(rng: &mut Rng) -> RawCase {
                 "PRINT \"E\"; ERR\nRESUME NEXT",
                 // repair and retry: the failing statement is executed again
                 "HC% = HC% + 1\nI% = I% + 1\nIF HC% < 4 THEN RESUME\nRESUME NEXT",
+                // a few times back to the end of the main module, whatever was under way
+                "HC% = HC% + 1\nIF HC% < 3 THEN RESUME NEXT\nRESUME Rl9",
             ])
         ));
     }
